@@ -43,6 +43,13 @@ class Lab:
         self.paths = S.write_world(self.world, os.path.join(root, "data"))
         self.specs = {s["name"]: s for s in specs}
         self.bams = {s["name"]: S.write_experiment(self.world, os.path.join(root, "data"), s) for s in specs}
+        # experiments with "illumina": true get a short-read BAM derived from their own long reads (YAML only)
+        self.illumina = {}
+        for s in specs:
+            if s.get("illumina"):
+                sb = os.path.join(root, "data", s["name"] + "_short.bam")
+                S.write_short_read_bam(self.bams[s["name"]], sb)
+                self.illumina[s["name"]] = [sb]
         self.n = 0
 
     def _out(self, tag):
@@ -57,7 +64,7 @@ class Lab:
             S.write_list_file(desc, order, self.bams)
             a = ["--bam_list", desc]
         else:
-            S.write_yaml_file(desc, order, self.bams)
+            S.write_yaml_file(desc, order, self.bams, self.illumina)
             a = ["--yaml", desc]
         a = ["--threads", str(threads)] + a + ["-p", "X"] + common_args(self.paths, cfg)
         return {"out": out, "args": a, "kind": "history", "order": list(order), "threads": threads, "mode": mode,
@@ -65,6 +72,12 @@ class Lab:
 
     def job_single(self, name, threads, cfg):
         out = self._out("single_%s_t%d" % (name, threads))
+        if self.illumina:
+            # per-experiment short reads can only be given in a YAML file: the stand-alone run is a one-entry YAML
+            desc = out + ".yaml"
+            S.write_yaml_file(desc, [name], self.bams, self.illumina)
+            a = ["--threads", str(threads), "--yaml", desc, "-p", "X"] + common_args(self.paths, cfg)
+            return {"out": out, "args": a, "kind": "single", "order": [name], "threads": threads, "home": out + "_home"}
         a = ["--threads", str(threads), "--bam"] + self.bams[name] + ["-p", name] + common_args(self.paths, cfg)
         return {"out": out, "args": a, "kind": "single", "order": [name], "threads": threads, "home": out + "_home"}
 
